@@ -5,7 +5,8 @@ from . import framework as fw
 
 PID = "C02"
 THEOREMS = ["OQuPyVerif.Props.C02.contraction_exact", "OQuPyVerif.Props.C02.pt_dynamics_eq_tempo",
-            "OQuPyVerif.Props.C02.mpo_dynamics_eq_tempo"]
+            "OQuPyVerif.Props.C02.mpo_dynamics_eq_tempo", "OQuPyVerif.Props.C02.pt_prefix",
+            "OQuPyVerif.Props.C02.prefix_of_longer_pt"]
 TOL = 1e-8
 
 
@@ -39,9 +40,12 @@ def correspondence(res, tier, rng):
         real_p = [np.array(s).reshape(-1) for s in pdyn.states]
         paths = sample_paths(rng, L, n, 12)
         psec = " | ".join("paths " + " ".join(map(str, p)) for p in paths)
-        tl += [tline, tline.replace("tempo", "ptinfl", 1) + " | " + psec]
+        tl += [tline, tline.replace("tempo", "ptinfl", 1) + " | " + psec,
+               tline.replace("tempo", "hyp", 1)]
         pl += [tensors.mpo_line(pt, n, case["rho0"], props),
-               tensors.mpo_line(pt, n, case["rho0"], props, mode="densept") + " | " + psec]
+               tensors.mpo_line(pt, n, case["rho0"], props, mode="densept") + " | " + psec,
+               tensors.mpo_line(pt, n, case["rho0"], props, mode="caprec")]
+        case["desc"]["_caps"] = [np.asarray(pt.get_cap_tensor(k)).reshape(-1) for k in range(n)]
         case["desc"]["unique"] = unique
         meta.append((case["desc"], real_t, real_p))
         for k in ("coupling", "system", "unique"):
@@ -52,17 +56,31 @@ def correspondence(res, tier, rng):
     pout = fw.run_driver("PT", pl)
     for i, (desc, real_t, real_p) in enumerate(meta):
         L = desc["d"] ** 2
-        mt = tensors.parse_states(tout[2 * i], L)
-        mp = tensors.parse_states(pout[2 * i], L)
+        mt = tensors.parse_states(tout[3 * i], L)
+        mp = tensors.parse_states(pout[3 * i], L)
+        caps_real = desc.pop("_caps")
+        caps_model = tensors.parse_states(pout[3 * i + 2], L)
+        e5 = max(np.abs(a - b).max() for a, b in zip(caps_real, caps_model))
+        toks = tout[3 * i + 2].split()
+        hyp = {toks[j]: float(fw.parse_rat(toks[j + 1])) for j in range(0, len(toks), 2)}
         e1 = max(np.abs(a - b).max() for a, b in zip(real_t, mt))
         e2 = max(np.abs(a - b).max() for a, b in zip(real_p, mp))
-        f_inf = np.array([fw.parse_crat(x) for x in tout[2 * i + 1].split()])
-        f_mpo = np.array([fw.parse_crat(x) for x in pout[2 * i + 1].split()])
+        f_inf = np.array([fw.parse_crat(x) for x in tout[3 * i + 1].split()])
+        f_mpo = np.array([fw.parse_crat(x) for x in pout[3 * i + 1].split()])
         e3 = np.abs(f_inf - f_mpo).max()
         e4 = max(np.abs(a - b).max() for a, b in zip(real_t, real_p))
         res.case(repr(desc), True, {"case": desc, "Tempo_vs_tempoState": e1,
                                     "compute_dynamics_vs_mpoRecord": e2,
-                                    "densePT_vs_ptOfInfluence": e3, "Tempo_vs_compute_dynamics": e4})
+                                    "densePT_vs_ptOfInfluence": e3, "Tempo_vs_compute_dynamics": e4,
+                                    "caps_vs_capRec": e5,
+                                    "prefix_hypotheses_sq": {k: hyp[k] for k in ("closesum", "closeunit")}})
+        if e5 > TOL:
+            res.disagree("cap tensors differ from the compute_caps recursion model by %g "
+                         "(hypothesis hcap of prefix_of_longer_pt)" % e5, desc)
+        for k in ("closesum", "closeunit"):
+            if hyp[k] > 1e-20:
+                res.disagree("hypothesis `%s` of pt_prefix is not met by the code's tensors "
+                             "(residual² %g)" % (k, hyp[k]), desc)
         if e1 > TOL:
             res.disagree("Tempo differs from tempoState by %g" % e1, desc)
         if e2 > TOL:
@@ -122,7 +140,7 @@ def run(tier, seed, replay):
                        "the hypothesis hPT is checked on sampled paths, not proved for the MPO "
                        "construction algorithm (PT-TEMPO's compression is not modelled)"]
     res.not_shown = ["'agreement tightens as the tolerance is tightened' (property of truncated SVD)",
-                     "prefix property: checked by the search oracle only; no theorem yet"]
+                     ]
     fw.standard_pipeline(res, [], THEOREMS)
     try:
         correspondence(res, tier, rng)
